@@ -263,8 +263,18 @@ impl EnfWorld {
             }
             _ => {}
         }
+        if f[0] == "fs.unlink" {
+            return match &self.file_path { Some(p) => { std::fs::remove_file(p).ok(); "ok".into() } None => "no-file".into() };
+        }
         if f[0] == "e.setadapter" {
             let a = self.mk_adapter(rt, f[1], f[2], f[3]);
+            if f.len() > 4 && f[4] != "-" {
+                let mut p = self.shared.plan.lock();
+                for it in f[4].split(',') {
+                    p.push_back(match it { "err" => Fault::Err, "refuse" => Fault::Refuse, "pass" => Fault::Pass,
+                        s if s.starts_with("fail") => Fault::FailAfter(s[4..].parse().unwrap()), _ => Fault::Pass });
+                }
+            }
             let e = match self.enf.as_mut() { Some(e) => e, None => return "no-enforcer".into() };
             let r = catch(|| rt.block_on(async { with_e!(e, x => x.set_adapter(FaultyBox(a)).await) }));
             return r.map(res_u).unwrap_or_else(|| "panic".into());
@@ -286,6 +296,7 @@ impl EnfWorld {
                 "e.delperm" => res_b(rt.block_on(async { with_e!(e, x => x.delete_permission(sv(f[1])).await) })),
                 "e.clear" => res_u(rt.block_on(async { with_e!(e, x => x.clear_policy().await) })),
                 "e.load" => res_u(rt.block_on(async { with_e!(e, x => x.load_policy().await) })),
+                "e.loadc" => { let r = res_u(rt.block_on(async { with_e!(e, x => x.load_policy().await) })); if r.starts_with("err") { "err".into() } else { r } }
                 "e.loadf" => {
                     let fp = sv(f[1]); let fg = sv(f[2]);
                     let filt = Filter { p: fp.iter().map(|s| s.as_str()).collect(), g: fg.iter().map(|s| s.as_str()).collect() };
@@ -421,4 +432,62 @@ impl Adapter for FaultyBox {
     async fn remove_policy(&mut self, sec: &str, ptype: &str, rule: Vec<String>) -> casbin::Result<bool> { self.0.remove_policy(sec, ptype, rule).await }
     async fn remove_policies(&mut self, sec: &str, ptype: &str, rules: Vec<Vec<String>>) -> casbin::Result<bool> { self.0.remove_policies(sec, ptype, rules).await }
     async fn remove_filtered_policy(&mut self, sec: &str, ptype: &str, i: usize, v: Vec<String>) -> casbin::Result<bool> { self.0.remove_filtered_policy(sec, ptype, i, v).await }
+}
+
+const ACL_CONF: &str = "[request_definition]\nr = sub, obj, act\n[policy_definition]\np = sub, obj, act\n[policy_effect]\ne = some(where (p.eft == allow))\n[matchers]\nm = r.sub == p.sub && r.obj == p.obj && r.act == p.act\n";
+
+fn render_file(rules: &[Vec<String>]) -> String {
+    rules.iter().map(|r| { let f: Vec<String> = r.iter().map(|x| if x.contains(',') { format!("\"{}\"", x) } else { x.clone() }).collect(); format!("p, {}\n", f.join(",")) }).collect()
+}
+
+/// child process of the crash-point check: the policy file holds the OLD policy; make the NEW one
+/// the in-memory policy, limit the file size to `k` bytes, call save_policy. Exit code 0 = Ok, 1 = Err.
+pub fn c10_child(_conf: &str, path: &str, new_enc: &str, k: u64) -> i32 {
+    let rt = tokio::runtime::Builder::new_current_thread().enable_all().build().unwrap();
+    let new = dec_lists(new_enc);
+    let path = path.to_string();
+    let r = rt.block_on(async move {
+        let m = DefaultModel::from_str(ACL_CONF).await?;
+        let mut e = Enforcer::new(m, FileAdapter::new(path)).await?;
+        e.enable_auto_save(false);
+        let old = e.get_policy();
+        e.remove_policies(old).await?;
+        for r in new { e.add_policy(r).await?; }
+        unsafe {
+            libc::signal(libc::SIGXFSZ, libc::SIG_IGN);
+            let lim = libc::rlimit { rlim_cur: k, rlim_max: k };
+            libc::setrlimit(libc::RLIMIT_FSIZE, &lim);
+        }
+        e.save_policy().await
+    });
+    match r { Ok(()) => 0, Err(_) => 1 }
+}
+
+/// parent side: write OLD, run the child with limit k, read the file back through a fresh FileAdapter
+pub fn fs_crash(rt: &tokio::runtime::Runtime, old: &[Vec<String>], new: &[Vec<String>], k: u64) -> String {
+    let dir = "/verif/target/tmp";
+    std::fs::create_dir_all(dir).ok();
+    let path = format!("{}/crash{}-{}.csv", dir, std::process::id(), FILE_CTR.fetch_add(1, Ordering::SeqCst));
+    std::fs::write(&path, render_file(old)).unwrap();
+    let exe = std::env::current_exe().unwrap();
+    let st = std::process::Command::new(exe).args(["c10child", "-", &path, &enc_lists(new), &k.to_string()]).status();
+    let code = st.map(|s| s.code().unwrap_or(-1)).unwrap_or(-2);
+    let p2 = path.clone();
+    let back = rt.block_on(async move {
+        let mut m = DefaultModel::from_str(ACL_CONF).await?;
+        let mut a = FileAdapter::new(p2);
+        a.load_policy(&mut m).await?;
+        Ok::<Vec<Vec<String>>, casbin::Error>(m.get_policy("p", "p"))
+    });
+    let raw = std::fs::read(&path).unwrap_or_default();
+    std::fs::remove_file(&path).ok();
+    std::fs::remove_file(format!("{}.tmp", path)).ok();
+    match back {
+        Err(_) => format!("corrupt:unreadable:{}", code),
+        Ok(rules) => {
+            if rules == old && raw == render_file(old).as_bytes() { "old".to_string() }
+            else if rules == new && raw == render_file(new).as_bytes() { "new".to_string() }
+            else { format!("corrupt:{}:{}", enc_lists(&rules), code) }
+        }
+    }
 }
